@@ -23,7 +23,9 @@ use ciphercore_base::data_values::Value;
 use ciphercore_base::evaluators::simple_evaluator::SimpleEvaluator;
 use ciphercore_base::evaluators::Evaluator;
 use ciphercore_base::graphs::{create_context, Context, Node};
-use ciphercore_base::random::{verif_prf_value_from_tape, verif_u32_in_range_from_tape, PRNG};
+use ciphercore_base::random::{
+    verif_prf_value_from_split_tape, verif_prf_value_from_tape, verif_u32_in_range_from_split_tape, verif_u32_in_range_from_tape, PRNG,
+};
 use rayon::prelude::*;
 use serde_json::{json, Value as J};
 use std::collections::{HashMap, HashSet};
@@ -785,6 +787,20 @@ struct RangeOut {
     accepted: u64,
 }
 
+/// `split` > 0: the session's buffer ends after `split` bytes of the tape (the draw straddles a batch boundary)
+fn u32_hook_split(tape: Vec<u8>, split: usize, m: u32) -> Result<(u32, usize), String> {
+    if split == 0 || split >= tape.len() {
+        return u32_hook(tape, m);
+    }
+    let rest = tape[split..].to_vec();
+    let first = tape[..split].to_vec();
+    match catch(|| verif_u32_in_range_from_split_tape(first, rest, m)) {
+        Ok(Ok(x)) => Ok(x),
+        Ok(Err(e)) => Err(format!("error: {}", first_line(&e.to_string()))),
+        Err(p) => Err(format!("panic: {}", first_line(&p))),
+    }
+}
+
 fn u32_hook(tape: Vec<u8>, m: u32) -> Result<(u32, usize), String> {
     match catch(|| verif_u32_in_range_from_tape(tape, m)) {
         Ok(Ok(x)) => Ok(x),
@@ -794,19 +810,19 @@ fn u32_hook(tape: Vec<u8>, m: u32) -> Result<(u32, usize), String> {
 }
 
 /// All 2^(8*enum_bytes) prefixes for modulus m. `range`: sub-range of the prefixes (for parallel splitting).
-fn u32_range_counts(m: u32, enum_bytes: usize, lo: u64, hi: u64, nb: usize) -> (Vec<u64>, RangeOut) {
+fn u32_range_counts(m: u32, enum_bytes: usize, lo: u64, hi: u64, nb: usize, split: usize) -> (Vec<u64>, RangeOut) {
     let mut acc = vec![0u64; m as usize];
     let mut out = RangeOut { viols: vec![], calls: 0, rejected: 0, accepted: 0 };
     let mk = |kindstr: &str, raw: u64, msg: String| Viol {
-        sig: format!("C15:u32-in-range:{}", kindstr),
-        what: format!("generate_u32_in_range(modulus {}) on raw bytes {:?}: {}", m, &raw.to_le_bytes()[..enum_bytes], msg),
-        case: json!({"part": "u32range", "modulus": m, "enum_bytes": enum_bytes, "raw": raw}),
+        sig: format!("C15:u32-in-range:{}{}", kindstr, if split > 0 { ":across-batch-boundary" } else { "" }),
+        what: format!("generate_u32_in_range(modulus {}) on raw bytes {:?}{}: {}", m, &raw.to_le_bytes()[..enum_bytes], if split > 0 { format!(" with a batch boundary after byte {}", split) } else { String::new() }, msg),
+        case: json!({"part": "u32range", "modulus": m, "enum_bytes": enum_bytes, "raw": raw, "split": split}),
     };
     for raw in lo..hi {
         let mut tape = raw.to_le_bytes()[..enum_bytes].to_vec();
         tape.extend_from_slice(&CONT);
         out.calls += 1;
-        let (v, c) = match u32_hook(tape.clone(), m) {
+        let (v, c) = match u32_hook_split(tape.clone(), split, m) {
             Ok(x) => x,
             Err(e) => {
                 if out.viols.len() < 4 {
@@ -851,7 +867,7 @@ fn u32_range_counts(m: u32, enum_bytes: usize, lo: u64, hi: u64, nb: usize) -> (
     (acc, out)
 }
 
-fn u32_range_modulus(m: u32, enum_bytes: usize, verbose: bool) -> (RangeOut, Option<String>) {
+fn u32_range_modulus(m: u32, enum_bytes: usize, split: usize, verbose: bool) -> (RangeOut, Option<String>) {
     // bytes of one draw = what the always-accepted raw value 0 consumes
     let mut t0 = vec![0u8; enum_bytes];
     t0.extend_from_slice(&CONT);
@@ -881,11 +897,11 @@ fn u32_range_modulus(m: u32, enum_bytes: usize, verbose: bool) -> (RangeOut, Opt
     }
     let total = 1u64 << (8 * enum_bytes);
     let (acc, mut out) = if enum_bytes <= 2 {
-        u32_range_counts(m, enum_bytes, 0, total, nb)
+        u32_range_counts(m, enum_bytes, 0, total, nb, split)
     } else {
         let parts: Vec<(Vec<u64>, RangeOut)> = (0..256u64)
             .into_par_iter()
-            .map(|h| u32_range_counts(m, enum_bytes, h * (total / 256), (h + 1) * (total / 256), nb))
+            .map(|h| u32_range_counts(m, enum_bytes, h * (total / 256), (h + 1) * (total / 256), nb, split))
             .collect();
         let mut acc = vec![0u64; m as usize];
         let mut out = RangeOut { viols: vec![], calls: 0, rejected: 0, accepted: 0 };
@@ -916,19 +932,19 @@ fn u32_range_modulus(m: u32, enum_bytes: usize, verbose: bool) -> (RangeOut, Opt
         let imin = acc.iter().position(|x| *x == mn).unwrap_or(0);
         let imax = acc.iter().position(|x| *x == mx).unwrap_or(0);
         out.viols.push(Viol {
-            sig: "C15:u32-in-range:biased".into(),
+            sig: format!("C15:u32-in-range:biased{}", if split > 0 { ":across-batch-boundary" } else { "" }),
             what: format!(
-                "generate_u32_in_range(modulus {}): over all {} raw values of the first draw, residue {} is returned {} times but residue {} {} times",
-                m, total, imin, mn, imax, mx
+                "generate_u32_in_range(modulus {}){}: over all {} raw values of the first draw, residue {} is returned {} times but residue {} {} times",
+                m, if split > 0 { format!(" with a batch boundary after byte {} of the draw", split) } else { String::new() }, total, imin, mn, imax, mx
             ),
-            case: json!({"part": "u32range", "modulus": m, "enum_bytes": enum_bytes}),
+            case: json!({"part": "u32range", "modulus": m, "enum_bytes": enum_bytes, "split": split}),
         });
     }
     (out, None)
 }
 
 /// larger moduli: raw values around the exact acceptance bound of one draw
-fn u32_range_boundary(m: u32, verbose: bool) -> RangeOut {
+fn u32_range_boundary(m: u32, split: usize, verbose: bool) -> RangeOut {
     let mut out = RangeOut { viols: vec![], calls: 0, rejected: 0, accepted: 0 };
     let mut t0 = vec![0u8; 8];
     t0.extend_from_slice(&CONT);
@@ -962,18 +978,18 @@ fn u32_range_boundary(m: u32, verbose: bool) -> RangeOut {
         } else {
             out.rejected += 1;
         }
-        let got = u32_hook(tape, m);
+        let got = u32_hook_split(tape, split, m);
         if verbose {
-            println!("  modulus {} raw {} (bound {}): expected {:?} observed {:?}", m, raw, bound, exp, got);
+            println!("  modulus {} raw {} (bound {}) split {}: expected {:?} observed {:?}", m, raw, bound, split, exp, got);
         }
         if got != Ok(exp) {
             out.viols.push(Viol {
-                sig: "C15:u32-in-range:acceptance-bound".into(),
+                sig: format!("C15:u32-in-range:acceptance-bound{}", if split > 0 { ":across-batch-boundary" } else { "" }),
                 what: format!(
-                    "generate_u32_in_range(modulus {}) on raw value {} ({} bytes per draw, exact bound {}): expected (value, bytes) {:?}, observed {:?}",
-                    m, raw, nb, bound, exp, got
+                    "generate_u32_in_range(modulus {}) on raw value {} ({} bytes per draw, exact bound {}{}): expected (value, bytes) {:?}, observed {:?}",
+                    m, raw, nb, bound, if split > 0 { format!(", batch boundary after byte {}", split) } else { String::new() }, exp, got
                 ),
-                case: json!({"part": "u32boundary", "modulus": m}),
+                case: json!({"part": "u32boundary", "modulus": m, "split": split}),
             });
         }
     }
@@ -982,11 +998,23 @@ fn u32_range_boundary(m: u32, verbose: bool) -> RangeOut {
 
 fn u32range_part(r: &Report) {
     let outs: Vec<(RangeOut, Option<String>)> =
-        (1..=256u32).into_par_iter().map(|m| u32_range_modulus(m, 2, false)).collect();
+        (1..=256u32).into_par_iter().map(|m| u32_range_modulus(m, 2, 0, false)).collect();
     let mut all = outs;
+    // the same exhaustive count with a batch boundary inside the draw (after its first byte)
+    let split_outs: Vec<(RangeOut, Option<String>)> =
+        (1..=256u32).into_par_iter().map(|m| u32_range_modulus(m, 2, 1, false)).collect();
+    for (o, _) in split_outs.iter() {
+        r.count("u32range_calls_across_batch_boundary", o.calls);
+    }
+    all.extend(split_outs);
     if r.tier.thorough() {
         for m in [257u32, 1000, 65535, 65536] {
-            all.push(u32_range_modulus(m, 3, false));
+            all.push(u32_range_modulus(m, 3, 0, false));
+            for split in [1usize, 2] {
+                let (o, c) = u32_range_modulus(m, 3, split, false);
+                r.count("u32range_calls_across_batch_boundary", o.calls);
+                all.push((o, c));
+            }
         }
     }
     for (o, cap) in all {
@@ -1003,12 +1031,17 @@ fn u32range_part(r: &Report) {
         }
     }
     for m in [257u32, 1000, 65535, 65536, 65537, 1 << 24, (1 << 24) + 1, 1_000_000_000, 1 << 31, (1 << 31) + 1, u32::MAX] {
-        let o = u32_range_boundary(m, false);
-        r.count("evaluations", o.calls);
-        r.count("u32boundary_calls", o.calls);
-        r.count("u32boundary_rejected", o.rejected);
-        for v in o.viols {
-            r.violation(&v.sig, &v.what, v.case);
+        for split in 0..5usize {
+            let o = u32_range_boundary(m, split, false);
+            r.count("evaluations", o.calls);
+            r.count("u32boundary_calls", o.calls);
+            r.count("u32boundary_rejected", o.rejected);
+            if split > 0 {
+                r.count("u32range_calls_across_batch_boundary", o.calls);
+            }
+            for v in o.viols {
+                r.violation(&v.sig, &v.what, v.case);
+            }
         }
     }
 }
@@ -1034,7 +1067,7 @@ fn u64_moduli() -> Vec<u64> {
     ms
 }
 
-fn u64_range_modulus(m: u64, verbose: bool) -> RangeOut {
+fn u64_range_modulus(m: u64, split: usize, verbose: bool) -> RangeOut {
     let mut out = RangeOut { viols: vec![], calls: 0, rejected: 0, accepted: 0 };
     let space: u128 = 1u128 << 64;
     let bound: u128 = space / m as u128 * m as u128;
@@ -1053,7 +1086,11 @@ fn u64_range_modulus(m: u64, verbose: bool) -> RangeOut {
             out.rejected += 1;
         }
         let got: Result<(u64, usize), String> = match catch(|| -> Result<(u64, usize), String> {
-            let mut g = PRNG::verif_from_tape(tape).map_err(|e| e.to_string())?;
+            let mut g = if split == 0 {
+                PRNG::verif_from_tape(tape).map_err(|e| e.to_string())?
+            } else {
+                PRNG::verif_from_split_tape(tape[..split].to_vec(), tape[split..].to_vec()).map_err(|e| e.to_string())?
+            };
             let v = g.get_random_in_range(Some(m)).map_err(|e| e.to_string())?;
             Ok((v, g.verif_tape_consumed()))
         }) {
@@ -1065,12 +1102,12 @@ fn u64_range_modulus(m: u64, verbose: bool) -> RangeOut {
         }
         if got != Ok(exp) {
             out.viols.push(Viol {
-                sig: "C15:u64-in-range:acceptance-bound".into(),
+                sig: format!("C15:u64-in-range:acceptance-bound{}", if split > 0 { ":across-batch-boundary" } else { "" }),
                 what: format!(
                     "PRNG::get_random_in_range({}) on raw value {} (exact bound floor(2^64/m)*m = {}): expected (value, bytes consumed) {:?}, observed {:?}",
                     m, raw, bound, exp, got
                 ),
-                case: json!({"part": "u64range", "modulus": m.to_string()}),
+                case: json!({"part": "u64range", "modulus": m.to_string(), "split": split}),
             });
         }
     }
@@ -1079,7 +1116,14 @@ fn u64_range_modulus(m: u64, verbose: bool) -> RangeOut {
 
 fn u64range_part(r: &Report) {
     let ms = u64_moduli();
-    let outs: Vec<RangeOut> = ms.par_iter().map(|m| u64_range_modulus(*m, false)).collect();
+    let mut outs: Vec<RangeOut> = ms.par_iter().map(|m| u64_range_modulus(*m, 0, false)).collect();
+    // a batch boundary after byte 1..7 of the 8-byte draw: the power-of-two neighbourhood moduli at every split
+    // position, the moduli 1..=65536 at split position 3
+    let big: Vec<u64> = ms.iter().copied().filter(|m| *m > 65536).collect();
+    for split in 1..8usize {
+        outs.extend(big.par_iter().map(|m| u64_range_modulus(*m, split, false)).collect::<Vec<_>>());
+    }
+    outs.extend(ms.par_iter().filter(|m| **m <= 65536).map(|m| u64_range_modulus(*m, 3, false)).collect::<Vec<_>>());
     for o in outs {
         r.count("evaluations", o.calls);
         r.count("u64range_calls", o.calls);
@@ -1207,11 +1251,17 @@ fn leaf_bytes(t: &Type) -> usize {
     }
 }
 
-fn valtape_type(t: &Type, sampler: usize, verbose: bool) -> (Vec<Viol>, u64) {
+fn valtape_type(t: &Type, sampler: usize, split: usize, verbose: bool) -> (Vec<Viol>, u64) {
     let nbytes = leaf_bytes(t);
     let bits = get_size_in_bits(t.clone()).unwrap_or(0);
-    let sname = if sampler == 0 { "prf-session" } else { "prng" };
-    let case = json!({"part": "valtape", "type": format!("{}", t), "sampler": sampler});
+    let split = if split < nbytes { split } else { 0 };
+    let sname = match (sampler, split) {
+        (0, 0) => "prf-session",
+        (0, _) => "prf-session:across-batch-boundary",
+        (_, 0) => "prng",
+        _ => "prng:across-batch-boundary",
+    };
+    let case = json!({"part": "valtape", "type": format!("{}", t), "sampler": sampler, "split": split});
     let mut viols: Vec<Viol> = vec![];
     let mut counts: HashMap<Vec<u8>, u64> = HashMap::new();
     let total = 1u64 << (8 * nbytes);
@@ -1219,9 +1269,17 @@ fn valtape_type(t: &Type, sampler: usize, verbose: bool) -> (Vec<Viol>, u64) {
         let tape = raw.to_le_bytes()[..nbytes].to_vec();
         let got = catch(|| -> Result<(Value, usize), String> {
             if sampler == 0 {
-                verif_prf_value_from_tape(tape, t.clone()).map_err(|e| e.to_string())
+                if split == 0 {
+                    verif_prf_value_from_tape(tape, t.clone()).map_err(|e| e.to_string())
+                } else {
+                    verif_prf_value_from_split_tape(tape[..split].to_vec(), tape[split..].to_vec(), t.clone()).map_err(|e| e.to_string())
+                }
             } else {
-                let mut g = PRNG::verif_from_tape(tape).map_err(|e| e.to_string())?;
+                let mut g = if split == 0 {
+                    PRNG::verif_from_tape(tape).map_err(|e| e.to_string())?
+                } else {
+                    PRNG::verif_from_split_tape(tape[..split].to_vec(), tape[split..].to_vec()).map_err(|e| e.to_string())?
+                };
                 let v = g.get_random_value(t.clone()).map_err(|e| e.to_string())?;
                 Ok((v, g.verif_tape_consumed()))
             }
@@ -1280,8 +1338,10 @@ fn valtape_type(t: &Type, sampler: usize, verbose: bool) -> (Vec<Viol>, u64) {
 
 fn valtape_part(r: &Report) {
     let ts = valtape_types();
-    let jobs: Vec<(usize, usize)> = (0..ts.len()).flat_map(|i| [(i, 0usize), (i, 1usize)]).collect();
-    let outs: Vec<(Vec<Viol>, u64)> = jobs.par_iter().map(|(i, s)| valtape_type(&ts[*i], *s, false)).collect();
+    // every type with both samplers, on one buffer and with a batch boundary after the first byte of the tape
+    let jobs: Vec<(usize, usize, usize)> =
+        (0..ts.len()).flat_map(|i| [(i, 0usize, 0usize), (i, 1, 0), (i, 0, 1), (i, 1, 1)]).collect();
+    let outs: Vec<(Vec<Viol>, u64)> = jobs.par_iter().map(|(i, s, sp)| valtape_type(&ts[*i], *s, *sp, false)).collect();
     for (viols, n) in outs {
         r.count("evaluations", n);
         r.count("valtape_tapes", n);
@@ -1601,11 +1661,11 @@ pub fn replay(r: &Report, rec: &serde_json::Value) -> i32 {
         "u32range" => {
             let m = case["modulus"].as_u64().unwrap_or(1) as u32;
             let eb = case["enum_bytes"].as_u64().unwrap_or(2) as usize;
-            u32_range_modulus(m, eb, true).0.viols
+            u32_range_modulus(m, eb, case["split"].as_u64().unwrap_or(0) as usize, true).0.viols
         }
-        "u32boundary" => u32_range_boundary(case["modulus"].as_u64().unwrap_or(1) as u32, true).viols,
+        "u32boundary" => u32_range_boundary(case["modulus"].as_u64().unwrap_or(1) as u32, case["split"].as_u64().unwrap_or(0) as usize, true).viols,
         "u64range" => match case["modulus"].as_str().and_then(|s| s.parse::<u64>().ok()) {
-            Some(m) => u64_range_modulus(m, true).viols,
+            Some(m) => u64_range_modulus(m, case["split"].as_u64().unwrap_or(0) as usize, true).viols,
             None => {
                 println!("  (re-run the whole check for the no-modulus case)");
                 vec![]
@@ -1616,7 +1676,7 @@ pub fn replay(r: &Report, rec: &serde_json::Value) -> i32 {
             let label = case["type"].as_str().unwrap_or("");
             let s = case["sampler"].as_u64().unwrap_or(0) as usize;
             match valtape_types().into_iter().find(|t| format!("{}", t) == label) {
-                Some(t) => valtape_type(&t, s, true).0,
+                Some(t) => valtape_type(&t, s, case["split"].as_u64().unwrap_or(0) as usize, true).0,
                 None => {
                     println!("MACHINERY-ERROR property=C15 unknown type {}", label);
                     return 2;
